@@ -223,6 +223,12 @@ def runK2 (cap : CapFn) : KeyState → List (Req κ × Nat) → List (Event κ)
     let (s', p) := tryInc2 cap r.t (r.t + tick) r.wd s
     ⟨r.key, r.t, r.wd, p⟩ :: runK2 cap s' rs
 
+/-- Calls served from a moving clock: `readings` are the successive values `Now()` returns (whatever happens
+    between them); the k-th call makes `readsTryToIncrement` = 1 reading and uses it for everything. -/
+def stamp : List Nat → List (κ × WindowData) → List (Req κ)
+  | t :: ts, (k, wd) :: cs => ⟨k, t, wd⟩ :: stamp ts cs
+  | _, _ => []
+
 /-- `RateLimitState.Counters()` at instant `now`: every key's `Counter()`.  After the repair fix F09d it only
     READS: 0 when the stored window is over, else the stored counter (before, it called
     `ensureWindowIsUpdated` and so moved windows and credited spill-over from a metrics scrape). -/
